@@ -496,8 +496,14 @@ func shareBacking(c command_interface.CommandInterface) {
 		for k := total; k < total+16; k++ {
 			big.Index(k).SetUint(0xA5)
 		}
+		// the first field first, the others behind it in reverse order: whatever is appended to the first field's
+		// window lands on storage that holds something else
+		order := append([]int{idx[0]}, idx[1:]...)
+		for l, r := 1, len(order)-1; l < r; l, r = l+1, r-1 {
+			order[l], order[r] = order[r], order[l]
+		}
 		off := 0
-		for _, i := range idx {
+		for _, i := range order {
 			f := sv.Field(i)
 			n := f.Len()
 			reflect.Copy(big.Slice(off, off+n), f)
